@@ -35,6 +35,21 @@ CLAIMED["C14"] = ("Proof: for every input the buffer is the input up to its firs
     "One genuine defect found and repaired (fix: a044aba).",
     "5.C14", "Trusted: Coq kernel; hand-written model tied by correspondence; extraction; harness allocator.",
     "Coq proof over all byte strings (induction) + model/impl differential execution")
+CLAIMED["C12"] = ("Proof: the UTF-8 decision is sound and complete against a specification (encodings of Unicode scalar values), so conversion to &str is "
+    "refused exactly for ill-formed byte strings; slice->view->slice is the identity on (address,length) for every length incl. 0 and a write through a "
+    "mutable view lands in the original cell and nowhere else; COption/CResult/CTupN conversions are mutual inverses. Model tied to cglue/src/{slice,option,"
+    "result,tuple}.rs by differential execution: all byte strings of length<=3 over the 22 boundary bytes, random valid/corrupted strings, every "
+    "(offset,len,index) view over 4 element types, every enum variant with droppable payloads; core::str::from_utf8, pointer identity, tag words and drop "
+    "counters as monitor.",
+    "5.C12", "Trusted: Coq kernel; hand-written model tied by correspondence; extraction; harness; core::str::from_utf8 (the implementation delegates to it).",
+    "Coq proof (UTF-8 soundness/completeness by induction, algebraic laws) + model/impl differential execution")
+CLAIMED["C15"] = ("Proof: for every item list and every sink state, feed_into_mut / Extend deliver exactly the prefix up to and including the first item on "
+    "which the sink says stop, in order, once each, report the number offered, and leave the rest to the source; collecting sinks end up with exactly the "
+    "items; a CIterator's next() is the source's next() (slot read only after a 0 return), so any interleaving of wrapper and direct calls sees the source's "
+    "sequence. Model tied to cglue/src/{callback,iter}.rs by differential execution over all item counts 0..8 x all stop positions x 3 sinks x 3 feed methods "
+    "and all op strings up to length 6 over fused/non-fused scripted sources; prefix/count/drop-log oracle as monitor.",
+    "5.C15", "Trusted: Coq kernel; hand-written model tied by correspondence; extraction; harness.",
+    "Coq proof (induction over item list / op list) + model/impl differential execution")
 PENDING = "not yet built in this round (planned, see DESIGN.md section 5); not claimed until its theorem, tie and monitor exist"
 NA = {}
 
